@@ -702,7 +702,31 @@ func (k *Case) runProps() string {
 		case "ps", "pu", "pr", "as", "ar", "au":
 			dumpBefore = s.dump(u)
 		}
+		// a new administrator — id not registered, provisioner as registered, no listed administrator
+		// with this subject under this provisioner name — must be accepted, whatever characters subject
+		// and name are made of
+		freshAdmin := false
+		if o.K == "as" && o.A[0] != "" && o.A[2] == o.A[3] {
+			_, idTaken := s.A.LoadByID(o.A[0])
+			pairTaken := false
+			for cur, n := "", 0; n < 50; n++ {
+				l, next := s.A.Find(cur, 100)
+				for _, a := range l {
+					if p, ok := s.P.Load(a.ProvisionerId); ok && a.Subject == o.A[1] && p.GetName() == o.A[4] {
+						pairTaken = true
+					}
+				}
+				if next == "" {
+					break
+				}
+				cur = next
+			}
+			freshAdmin = !idTaken && !pairTaken
+		}
 		out, _ := s.exec(o)
+		if freshAdmin && out != "ok" {
+			return fmt.Sprintf("store-refused:%s:%s@%d", o.K, out, i)
+		}
 		if dumpBefore != "" && out != "ok" && out != "crash" && s.dump(u) != dumpBefore {
 			return fmt.Sprintf("rejected-changed:%s@%d", o.K, i)
 		}
@@ -788,12 +812,14 @@ var clean bool
 
 var (
 	provIDs = []string{"p0", "p1", "p2", "p3", "p4"}
-	names   = []string{"n0", "n1", "n2", "n3"}
-	toks    = []string{"t0", "t1", "t2", "t3"}
-	kids    = []string{"k0", "k1"}
-	admIDs  = []string{"a0", "a1", "a2", "a3", "a4", "a5", "a6", ""}
-	subs    = []string{"s0", "s1", "s2"}
-	limits  = []int{1, 1, 2, 2, 3, 5, 0, -1, 100, 101}
+	// names and subjects that contain the characters a joined key would use as its separator:
+	// ("s0@n", "x") and ("s0", "n@x") are different pairs whatever string one could build from them
+	names  = []string{"n0", "n1", "n2", "n3", "x", "n@x", "n:x", "n/x"}
+	toks   = []string{"t0", "t1", "t2", "t3"}
+	kids   = []string{"k0", "k1"}
+	admIDs = []string{"a0", "a1", "a2", "a3", "a4", "a5", "a6", ""}
+	subs   = []string{"s0", "s1", "s2", "s0@n", "s0:n", "s0/n"}
+	limits = []int{1, 1, 2, 2, 3, 5, 0, -1, 100, 101}
 )
 
 func genProv(r *c.Rng, k string) Op {
@@ -983,6 +1009,11 @@ func corner() []*Case {
 		{Ops: []Op{ps("p0", "n0"), as("a0", "s0", "p0", "n0", true), as("a1", "s1", "p0", "n0", false),
 			as("a2", "s2", "p0", "n0", false), {K: "ar", A: []string{"a1"}}, as("a3", "s1", "p0", "n0", true),
 			{K: "ar", A: []string{"a0"}}, {K: "ar", A: []string{"a3"}}}},
+		// pairs that differ only in where the separator of a joined key would fall
+		{Ops: []Op{ps("p0", "x"), ps("p1", "n@x"), as("a0", "s0@n", "p0", "x", true), as("a1", "s0", "p1", "n@x", false), {K: "ap", N: 5},
+			{K: "ar", A: []string{"a0"}}, as("a2", "s0@n", "p0", "x", true), {K: "ar", A: []string{"a1"}}, {K: "ap", N: 5}}},
+		{Ops: []Op{ps("p0", "x"), ps("p1", "n:x"), ps("p2", "n/x"), as("a0", "s0:n", "p0", "x", true), as("a1", "s0", "p1", "n:x", true), as("a2", "s0/n", "p0", "x", false),
+			as("a3", "s0", "p2", "n/x", false), {K: "ap", N: 2}, {K: "ar", A: []string{"a1"}}, {K: "ap", N: 5}}},
 	}
 }
 
